@@ -34,6 +34,9 @@ type recClient struct {
 	packs    []*pack.ZipPack // retained objects (as handed over)
 	snapshot [][]byte        // serialisation at hand-over
 	other    int             // packs of another type
+	// failEvery > 0: every failEvery-th hand-over is reported as failed to the sender ("connection lost") after the pack
+	// has been taken over (queued for transmission, partly written): the pack was handed to the client once all the same
+	failEvery int
 }
 
 func (c *recClient) Connect() error { return nil }
@@ -51,6 +54,9 @@ func (c *recClient) SendFlush(p pack.Pack, flush bool, opts ...wnet.TcpClientOpt
 	}
 	c.snapshot = append(c.snapshot, append([]byte(nil), pack.ToBytesPack(zp)...))
 	c.packs = append(c.packs, zp)
+	if c.failEvery > 0 && len(c.snapshot)%c.failEvery == 0 {
+		return fmt.Errorf("write tcp: connection lost (reported by the harness client after it took the pack over)")
+	}
 	return nil
 }
 
@@ -245,6 +251,8 @@ type SeqCase struct {
 	Wait   int  `json:"wait"`
 	ZipMin int  `json:"zipmin"`
 	Ops    []Op `json:"ops"`
+	// ClientFails > 0: the client reports every ClientFails-th hand-over as failed (after taking the pack)
+	ClientFails int `json:"client_fails,omitempty"`
 }
 
 func drawRec(t *rapid.T, buf int) Rec {
@@ -256,7 +264,7 @@ func drawRec(t *rapid.T, buf int) Rec {
 }
 
 func runSeq(c SeqCase) *pbt.Result {
-	cl := &recClient{retain: true}
+	cl := &recClient{retain: true, failEvery: c.ClientFails}
 	z := zip.NewForVerif(cl, false, int64(c.Wait), 1000, c.Buf, c.ZipMin)
 	defer z.StopForVerif()
 	var batches [][][]byte
@@ -393,7 +401,7 @@ func bucket(n int) string {
 
 var specSeq = pbt.Register(pbt.Spec[SeqCase]{
 	Prop: "C16", Name: "append-histories",
-	Rule:  "histories of append / send-direct (with or without appended records still pending) / flush / configuration update (ApplyConfig with new buffer size, waiting time and compression minimum, in force from then on) on a fresh sender with generated settings (buffer 1..128 KiB, wait 1..10000 ms of record time, compression minimum 0..4 KiB) and a client that RETAINS the pack objects it is given; record contents 0..2x buffer, non-decreasing positive record times, one appended record in twenty unencodable (nil tag map: its encoding fails half way; nothing is asserted about it, it must not disturb the others); oracle = a model of the flush rule gives the expected batches: emitted packs hold exactly those batches in order, RecordCount = records contained, payload decodes (after gunzip iff flagged) to the records handed in, compressed iff payload >= minimum, and every retained pack still serialises at the end to what it was at hand-over; non-trivial = >= 2 batches and >= 1 uncompressed batch; distinct by case",
+	Rule:  "histories of append / send-direct (with or without appended records still pending) / flush / configuration update (ApplyConfig with new buffer size, waiting time and compression minimum, in force from then on) on a fresh sender with generated settings (buffer 1..128 KiB, wait 1..10000 ms of record time, compression minimum 0..4 KiB) and a client that RETAINS the pack objects it is given and, in a quarter of the cases, reports every 1st-3rd hand-over as failed after taking the pack (a connection lost while the pack is on its way is still one hand-over); record contents 0..2x buffer, non-decreasing positive record times, one appended record in twenty unencodable (nil tag map: its encoding fails half way; nothing is asserted about it, it must not disturb the others); oracle = a model of the flush rule gives the expected batches: emitted packs hold exactly those batches in order, RecordCount = records contained, payload decodes (after gunzip iff flagged) to the records handed in, compressed iff payload >= minimum, and every retained pack still serialises at the end to what it was at hand-over; non-trivial = >= 2 batches and >= 1 uncompressed batch; distinct by case",
 	Quick: 400, Thorough: 40000,
 	Draw: func(t *rapid.T) SeqCase {
 		c := SeqCase{
@@ -426,6 +434,9 @@ var specSeq = pbt.Register(pbt.Spec[SeqCase]{
 				}
 			}
 			c.Ops = append(c.Ops, op)
+		}
+		if rapid.IntRange(0, 3).Draw(t, "clientfails?") == 0 {
+			c.ClientFails = rapid.IntRange(1, 3).Draw(t, "clientfails")
 		}
 		return c
 	},
